@@ -63,8 +63,8 @@ def files(v, base):
         f['recipes/gen.yaml'] = f['recipes/gen.yaml'].replace('gen-from-bin', 'gen-v1-from-bin')
     # the url source of dl is declared deterministic but its checkout script is not (a whitelisted host variable leaks in):
     # live build-id predictions for it can turn out wrong
-    assert "    extract: False\n" in f['recipes/dl.yaml']
-    f['recipes/dl.yaml'] = f['recipes/dl.yaml'].replace("    extract: False\n", "    extract: False\ncheckoutDeterministic: True\ncheckoutScript: |\n    echo \"flavour ${VERIF_NONCE:-none}\" > flavour.txt\n", 1)
+    assert "      dir: ar\n" in f['recipes/dl.yaml']
+    f['recipes/dl.yaml'] = f['recipes/dl.yaml'].replace("      dir: ar\n", "      dir: ar\ncheckoutDeterministic: True\ncheckoutScript: |\n    echo \"flavour ${VERIF_NONCE:-none}\" > flavour.txt\n", 1)
     return f
 
 
